@@ -1,9 +1,15 @@
 /-
 C03 — Multichannel expansion follows the wrap-and-zip law everywhere.
-Property theorems only (helper lemmas are in `Lemmas.lean`).
+
+Property theorems only (helper lemmas are in `Lemmas*.lean`).  Every statement quantifies over
+ALL argument rows (`List Arg`: any mix of numbers, objects, tuples, lists, channel lists, any
+nesting), all single-channel constructors `f` (any result type) and all channel paths.
 -/
-import Sc3Verif.C03.Lemmas
+import Sc3Verif.C03.LemmasOps
+import Sc3Verif.C03.LemmasOut
 namespace Sc3Verif.C03
+
+/-! ## unit-generator constructors: `_multi_new` -/
 
 /-- MAIN (recursive form, as the property is worded): if some argument is a list, the call returns
     a channel list as long as the longest list, whose `i`-th element is the same call on the
@@ -19,5 +25,282 @@ theorem mce_law {β : Type} (f : List Arg → β) (args : List Arg) (he : hasEmp
   · rfl
   · congr 1
     exact range_map_eq_ofFn _ _
+
+/-- what "replaced by its element `i` modulo its length" means, and that nothing else is touched -/
+theorem wrapAt_spec (i : Nat) :
+    (∀ c xs (_ : xs ≠ []), xs[i % xs.length]? = some (wrapAt i (.lst c xs))) ∧
+    (∀ v, wrapAt i (.num v) = .num v) ∧ (∀ k, wrapAt i (.obj k) = .obj k) ∧
+    (∀ xs, wrapAt i (.tup xs) = .tup xs) :=
+  ⟨fun c xs h => wrapAt_lst_getElem? c xs i h, fun _ => rfl, fun _ => rfl, fun _ => rfl⟩
+
+/-- no list among the arguments: exactly one single-channel call with the arguments as they are -/
+theorem mce_scalar {β : Type} (f : List Arg → β) (args : List Arg) (h : maxLen args = 0) :
+    multiNew f args = .leaf (f args) := by
+  rw [multiNew_eq, if_pos h]
+
+/-- scalars and tuples are never expanded: they reach every single-channel call unchanged,
+    whatever the channel path (a tuple may even contain lists) -/
+theorem mce_untouched (p : List Nat) :
+    (∀ v, sel p (.num v) = .num v) ∧ (∀ k, sel p (.obj k) = .obj k) ∧ (∀ xs, sel p (.tup xs) = .tup xs) := by
+  induction p with
+  | nil => exact ⟨fun _ => rfl, fun _ => rfl, fun _ => rfl⟩
+  | cons i p ih => exact ⟨fun v => by simp [sel, wrapAt, ih.1], fun k => by simp [sel, wrapAt, ih.2.1],
+      fun xs => by simp [sel, wrapAt, ih.2.2]⟩
+
+/-- MAIN (closed form): the element at channel path `p` of the result exists exactly when `p` is a
+    valid path, and it is the single-channel call on the row in which every argument has been
+    indexed along `p` independently (`sel`): zip, not a cartesian product. -/
+theorem mce_path_law {β : Type} (f : List Arg → β) (args : List Arg)
+    (hne : (multiNew f args).hasErr = false) (p : List Nat) (b : β) :
+    (multiNew f args).at p = some b ↔ ValidPath args p ∧ b = f (selRow p args) := by
+  rw [validPath_iff_rec]; exact at_iff_validRec f args hne p b
+
+/-- the single-channel calls are made in path (depth-first, left-to-right) order … -/
+theorem mce_calls_in_path_order {β : Type} (f : List Arg → β) (args : List Arg) :
+    (multiNew f args).leaves = (multiNew f args).paths.map fun p => f (selRow p args) :=
+  leaves_eq_paths_map f args
+
+/-- … one per valid channel path, no path twice: exactly one unit per combination -/
+theorem mce_one_call_per_path {β : Type} (f : List Arg → β) (args : List Arg)
+    (hne : (multiNew f args).hasErr = false) :
+    (∀ p, p ∈ (multiNew f args).paths ↔ ValidPath args p) ∧ (multiNew f args).paths.Nodup ∧
+      (multiNew f args).leaves.length = (multiNew f args).paths.length :=
+  ⟨fun p => by rw [validPath_iff_rec]; exact mem_paths_iff f args hne p, paths_nodup f args,
+    by rw [leaves_eq_paths_map]; simp⟩
+
+/-- number of units ≤ product over the nesting levels of the longest list of the level -/
+theorem mce_unit_count_le {β : Type} (f : List Arg → β) (args : List Arg) :
+    (multiNew f args).leaves.length ≤ levelProd (rowDepth args) args :=
+  leaves_length_le f args
+
+/-- one level of lists (the usual case): exactly `longest length` units -/
+theorem mce_unit_count_flat {β : Type} (f : List Arg → β) (args : List Arg)
+    (hflat : rowDepth args ≤ 1) (he : hasEmpty args = false) (hn : maxLen args ≠ 0) :
+    (multiNew f args).leaves.length = maxLen args := by
+  rw [multiNew_eq, if_neg hn, if_neg (by simp [he])]
+  simp only [Res.leaves, leavesL_map]
+  have : ∀ i, (multiNew f (args.map (wrapAt i))).leaves.length = 1 := by
+    intro i
+    have hd := rowDepth_wrapAt_lt i args he hn
+    have h0 : maxLen (args.map (wrapAt i)) = 0 := by
+      apply Classical.byContradiction
+      intro h
+      exact rowDepth_pos_of_maxLen h (by omega)
+    rw [multiNew_eq, if_pos h0]; rfl
+  have gen : ∀ l : List Nat, (l.flatMap fun i => (multiNew f (args.map (wrapAt i))).leaves).length = l.length := by
+    intro l
+    induction l with
+    | nil => rfl
+    | cons x r ih => simp [List.flatMap_cons, this, ih]; omega
+  rw [gen, List.length_range]
+
+/-- the shape of the result depends on the arguments only, not on the constructor -/
+theorem mce_shape_indep {β γ : Type} (f : List Arg → β) (g : List Arg → γ) (args : List Arg) :
+    (multiNew f args).paths = (multiNew g args).paths :=
+  paths_indep f g args
+
+/-- the only failure is `i % len([])`: rows whose lists are non-empty at every depth never fail -/
+theorem mce_no_error {β : Type} (f : List Arg → β) (args : List Arg) (h : DeepNonEmpty.allNE args) :
+    (multiNew f args).hasErr = false := by
+  induction args using multiNew_induct with
+  | leaf args h0 => rw [multiNew_eq, if_pos h0]; rfl
+  | err args hn he =>
+    exfalso
+    clear hn
+    induction args with
+    | nil => simp [hasEmpty] at he
+    | cons a r ih =>
+      simp only [DeepNonEmpty.allNE] at h
+      cases a with
+      | lst c xs =>
+        cases xs with
+        | nil => simp [DeepNonEmpty] at h
+        | cons y ys => simp only [hasEmpty] at he; exact ih he h.2
+      | num v => simp only [hasEmpty] at he; exact ih he h.2
+      | obj v => simp only [hasEmpty] at he; exact ih he h.2
+      | tup v => simp only [hasEmpty] at he; exact ih he h.2
+  | chan args hn he ih =>
+    rw [multiNew_eq, if_neg hn, if_neg (by simp [he])]
+    simp only [Res.hasErr]
+    rw [hasErrL_range_map]
+    intro i hi
+    apply ih i
+    clear ih hn he hi
+    induction args with
+    | nil => trivial
+    | cons a r ih' =>
+      simp only [DeepNonEmpty.allNE] at h
+      simp only [List.map_cons, DeepNonEmpty.allNE]
+      refine ⟨?_, ih' h.2⟩
+      cases a with
+      | lst c xs =>
+        cases xs with
+        | nil => simp [DeepNonEmpty] at h
+        | cons y ys =>
+          simp only [wrapAt]
+          have hm : (y :: ys)[i % (ys.length + 1)]'(Nat.mod_lt _ (Nat.succ_pos _)) ∈ y :: ys :=
+            List.getElem_mem _
+          exact deepNonEmpty_mem h.1 hm
+      | num v => trivial
+      | obj v => trivial
+      | tup v => trivial
+
+/-! ## arithmetic on channel lists: `list_unop`, `list_binop`, `wrap_extend` -/
+
+/-- `wrap_extend(l, n)` has length `n` and `wrap_extend(l, n)[i] = l[i mod len(l)]` -/
+theorem wrap_extend_law {α : Type} (l : List α) (n : Nat) (hl : l ≠ []) :
+    (wrapExtend l n).length = n ∧ ∀ i, i < n → (wrapExtend l n)[i]? = l[i % l.length]? :=
+  ⟨wrapExtend_length l n hl, fun i hi => by rw [wrapExtend_getElem? l n i hl, if_pos hi]⟩
+
+/-- `(a op b)[i] = a[i mod |a|] op b[i mod |b|]`, recursively: on lists (no tuples, nothing
+    empty) `list_binop` builds exactly the tree `_multi_new` builds for a two-argument unit, so
+    channel-list arithmetic and `BinaryOpUGen.new(op, a, b)` obey the same law (and `mce_law`,
+    `mce_path_law` apply to it).  Holds for every result container `t`. -/
+theorem binop_law {β : Type} (op : Arg → Arg → β) (f : List Arg → β)
+    (hf : ∀ x y, f [x, y] = op x y) (t : Kind) (a b : Arg)
+    (hta : TupleFree a) (htb : TupleFree b) (hna : DeepNonEmpty a) (hnb : DeepNonEmpty b) :
+    (listBinop op t a b).toRes = multiNew f [a, b] :=
+  binop_eq_multiNew op f hf t a b hta htb hna hnb
+
+/-- same for unary operators -/
+theorem unop_law {β : Type} (op : Arg → β) (f : List Arg → β) (hf : ∀ x, f [x] = op x)
+    (t : Kind) (a : Arg) (hta : TupleFree a) (hna : DeepNonEmpty a) :
+    (listUnop op t a).toRes = multiNew f [a] :=
+  unop_eq_multiNew op f hf t a hta hna
+
+/-- the outermost container of an operator result is the one asked for (`ChannelList`) -/
+theorem binop_container {β : Type} (op : Arg → Arg → β) (t : Kind) (a b : Arg)
+    (h : a.isSeq = true ∨ b.isSeq = true) :
+    listBinop op t a b = .err ∨ ∃ rs, listBinop op t a b = .seq t rs := by
+  rw [listBinop]
+  by_cases ha : a.isSeq = true <;> by_cases hb : b.isSeq = true
+  · simp only [ha, hb, Bool.and_self, if_true]
+    split
+    · split
+      · exact Or.inr ⟨_, rfl⟩
+      · exact Or.inl rfl
+    · exact Or.inr ⟨_, rfl⟩
+  · simp only [ha, hb, Bool.and_false, Bool.false_eq_true, if_false, if_true]
+    exact Or.inr ⟨_, rfl⟩
+  · simp only [ha, hb, Bool.false_and, Bool.false_eq_true, if_false, if_true]
+    exact Or.inr ⟨_, rfl⟩
+  · rcases h with h | h <;> contradiction
+
+/-! ## convenience methods: `flop`, `_multichannel_perform` -/
+
+/-- `flop`: row `i` holds, for every column, its element `i mod length` (scalars, tuples and
+    strings are columns of length one); as many rows as the longest column -/
+theorem flop_law (cols : List Arg) (hc : cols ≠ []) (he : hasEmpty cols = false) :
+    flop cols =
+      (List.range (max (maxLen cols) (if cols.all Arg.isList then 0 else 1))).map
+        fun i => cols.map (wrapAt i) :=
+  flop_eq cols hc he
+
+/-- a convenience method on a channel list is ONE level of the same law: element `i` of the
+    result is the method called on element `i mod n` of the receiver with every list argument
+    replaced by its element `i mod length`; the result is as long as the longest of them -/
+theorem perform_law {β : Type} (f : List Arg → β) (self : List Arg) (args : List Arg)
+    (hs : self ≠ []) (he : hasEmpty args = false) :
+    multichannelPerform f self args =
+      (List.range (maxLen (.lst true self :: args))).map
+        fun i => f ((Arg.lst true self :: args).map (wrapAt i)) := by
+  unfold multichannelPerform
+  have he' : hasEmpty (Arg.lst true self :: args) = false := by
+    cases self with
+    | nil => exact absurd rfl hs
+    | cons x r => simpa [hasEmpty] using he
+  rw [flop_eq _ (by simp) he', List.map_map]
+  have hpos : 0 < self.length := List.length_pos_iff.mpr hs
+  have hm : max (maxLen (Arg.lst true self :: args))
+      (if (Arg.lst true self :: args).all Arg.isList then 0 else 1) = maxLen (Arg.lst true self :: args) := by
+    simp only [maxLen]
+    split <;> omega
+  rw [hm]
+  rfl
+
+/-! ## output units: zero replacement and flattening -/
+
+/-- `Out.ar(bus, xs)`: the units are those of `_multi_new('audio', bus, *xs')` where `xs'` is the
+    zero-replaced `as_list(xs)`; one silence per list level visited (the top level plus every
+    nested list), whether or not the level contains a zero -/
+theorem out_flatten {β : Type} (f : List Arg → β) (s : Nat) (fixed : List Arg) (output : Arg) :
+    outAr f s fixed output =
+      (s + 1 + Arg.nLists.nListsL (asList output),
+       multiNew f (fixed ++ (rzList s (asList output)).2)) := by
+  simp [outAr, rzList_count]
+
+/-- zero replacement keeps the shape and every item that is not a literal zero; zeros become
+    objects created by this call (ids ≥ `s`); so undoing it gives the input back -/
+theorem silence_only_replaces_zeros (s : Nat) (xs : List Arg) (hb : Below.belowL s xs) :
+    unrep.unrepL s (rzList s xs).2 = xs :=
+  rzList_unrep s xs hb
+
+/-- after replacement no literal zero is left at any list depth … -/
+theorem silence_leaves_no_zero (s : Nat) (xs : List Arg) : ZeroFree.allZF (rzList s xs).2 :=
+  rzList_zeroFree s xs
+
+/-- … hence no output unit ever receives a literal zero as a channel, at any channel path
+    (tuples are opaque and are not inspected) -/
+theorem out_no_literal_zero (s : Nat) (fixed : List Arg) (output : Arg) :
+    ∀ row ∈ (outAr id s fixed output).2.leaves, ∀ x ∈ row.drop fixed.length, ZeroFree x := by
+  intro row hrow x hx
+  simp only [outAr] at hrow
+  rw [leaves_eq_paths_map] at hrow
+  obtain ⟨p, _, rfl⟩ := List.mem_map.mp hrow
+  simp only [id, selRow, List.map_append] at hx
+  rw [List.drop_left' (by simp)] at hx
+  obtain ⟨y, hy, rfl⟩ := List.mem_map.mp hx
+  exact zeroFree_sel p y (zeroFree_mem (rzList_zeroFree s _) hy)
+
+/-- zeros of one level share one silence, and the silences of nested levels are different
+    objects: all objects created lie in `[s, s + levels)` and the top level uses exactly `s` -/
+theorem silence_levels (s : Nat) (xs : List Arg) (hb : Below.belowL s xs) :
+    FreshIn.freshInL s (rzList s xs).1 (rzList s xs).2 ∧
+      (rzList s xs).2 = (rzItems (.obj s) (s + 1) xs).2 := by
+  refine ⟨?_, by rw [rzList.eq_1]⟩
+  rw [rzList.eq_1]
+  have hb' : Below.belowL s xs := hb
+  -- ids in the input are below s, so every id ≥ s in the output was created here
+  have := rz_freshIn (.obj s) (s + 1) xs s (by omega) ⟨s, rfl, by omega⟩ hb'
+  exact this
+
+/-! ## non-vacuity: concrete instances -/
+
+/-- `SinOsc.ar([100, 200, 300], [0, 0.5])` -/
+def exArgs : List Arg :=
+  [.obj 90, .lst false [.num 100, .num 200, .num 300], .lst false [.num 0, .num 512]]
+
+example : multiNew id exArgs =
+    .chan [.leaf [.obj 90, .num 100, .num 0], .leaf [.obj 90, .num 200, .num 512],
+           .leaf [.obj 90, .num 300, .num 0]] := by
+  rw [multiNew_eq]
+  simp [exArgs, maxLen, hasEmpty, wrapAt, List.range, List.range.loop]
+  refine ⟨?_, ?_, ?_⟩ <;> exact mce_scalar _ _ rfl
+
+/-- nested: `SinOsc.ar([[1, 2], 3], (7, [8]))` — the tuple is untouched although it holds a list -/
+def exNested : List Arg :=
+  [.lst false [.lst true [.num 1, .num 2], .num 3], .tup [.num 7, .lst false [.num 8]]]
+
+example : ValidPath exNested [0, 1] ∧ ¬ ValidPath exNested [1, 0] ∧
+    selRow [0, 1] exNested = [.num 2, .tup [.num 7, .lst false [.num 8]]] := by
+  refine ⟨?_, ?_, ?_⟩
+  · rw [validPath_iff_rec]; simp [ValidRec, exNested, maxLen, wrapAt]
+  · rw [validPath_iff_rec]; simp [ValidRec, exNested, maxLen, wrapAt]
+  · simp [selRow, sel, exNested, wrapAt]
+
+example : DeepNonEmpty.allNE exNested ∧ TupleFree (.lst true [.num 1, .lst false [.obj 2]]) := by
+  simp [exNested, DeepNonEmpty.allNE, DeepNonEmpty, TupleFree, TupleFree.allTF]
+
+/-- `Out.ar(0, [0, x0, [0, x1]])` with fresh ids from 1000 -/
+example : outAr id 1000 [.obj 90, .num 0] (.lst false [.num 0, .obj 0, .lst false [.num 0, .obj 1]]) =
+    (1002, .chan [.leaf [.obj 90, .num 0, .obj 1000, .obj 0, .obj 1001],
+                  .leaf [.obj 90, .num 0, .obj 1000, .obj 0, .obj 1]]) := by
+  simp only [outAr, rzList, rzItems, asList, List.cons_append, List.nil_append]
+  rw [multiNew_eq]
+  simp [maxLen, hasEmpty, wrapAt, List.range, List.range.loop]
+  refine ⟨?_, ?_⟩ <;> exact mce_scalar _ _ rfl
+
+example : Below.belowL 1000 [.num 0, .obj 0, .lst false [.num 0, .obj 1]] := by
+  simp [Below.belowL, Below]
 
 end Sc3Verif.C03
